@@ -40,9 +40,9 @@ fn to_record(r: &Rec, via_setters: bool) -> Record {
     x
 }
 
-fn do_write(log: &mut Log, recs: &[Rec], via_setters: bool) -> Option<Vec<u8>> {
+fn do_write(log: &mut Log, recs: &[Rec], via_setters: bool, quoted: bool) -> Option<Vec<u8>> {
     let mut out: Option<Vec<u8>> = None;
-    log.call("write", json!({"recs": Value::Array(recs.iter().map(rec_json).collect()), "setters": via_setters as u8}), || {
+    log.call("write", json!({"recs": Value::Array(recs.iter().map(rec_json).collect()), "setters": via_setters as u8, "q": quoted as u8}), || {
         let mut buf: Vec<u8> = vec![];
         let mut errs = 0;
         {
@@ -124,7 +124,7 @@ pub fn drive(log: &mut Log) {
         }
         let n = rng.range(1, 5) as usize;
         let recs: Vec<Rec> = (0..n).map(|_| rand_rec(&mut rng, k, log)).collect();
-        let data = match do_write(log, &recs, rng.coin()) {
+        let data = match do_write(log, &recs, rng.coin(), false) {
             Some(x) => x,
             None => continue,
         };
@@ -152,6 +152,46 @@ pub fn drive(log: &mut Log) {
         let bad = wild_fault(&mut rng, &data);
         log.oblige("wild");
         do_read(log, &bad, "wild", "wild");
+    }
+
+    // columns containing double quotes (first position, fully quoted, inner, trailing): the csv
+    // layer quotes them on write and unquotes them on read; only parsed == written is judged
+    for _ in 0..log.opts.n(200, 2000) {
+        case += 1;
+        if !log.mine(case) {
+            continue;
+        }
+        let mut rng = Rng::new(seed, 114, case);
+        let k = rng.range(1, 5) as usize;
+        if !log.begin("quote", json!({"k": k})) {
+            continue;
+        }
+        let n = rng.range(1, 4) as usize;
+        let mut recs: Vec<Rec> = vec![];
+        for _ in 0..n {
+            let mut r = rand_rec(&mut rng, k, log);
+            let mut any = false;
+            for a in r.aux.iter_mut() {
+                if rng.coin() {
+                    *a = qtok(&mut rng);
+                    any = true;
+                    if a[0] == b'"' {
+                        log.oblige("bed_quote_first");
+                    } else {
+                        log.oblige("bed_quote_inner");
+                    }
+                }
+            }
+            if !any || rng.chance(1, 4) {
+                r.chrom = qtok(&mut rng);
+            }
+            recs.push(r);
+        }
+        let data = match do_write(log, &recs, rng.coin(), true) {
+            Some(x) => x,
+            None => continue,
+        };
+        do_read(log, &data, "rt", "none");
     }
 }
 
